@@ -250,13 +250,84 @@ def genId (E : Env) (fs : FS) (new : Bool) (rhsm : Option Str) (fresh : Str) : F
     let w := wtdWrite E fs .id m
     if w.2 then (w.1, ofCanon m) else (w.1, .oserror)
 
+/-- every entry point that hands out the identifier (all of them end in `generate_machine_id()`):
+    `explicit`  utilities.generate_machine_id(destination_file=…)
+    `default`   utilities.generate_machine_id()            (path bound at import time)
+    `clientFn`  insights.client.client.get_machine_id()                         client.py:305
+    `clientObj` InsightsClient(config).get_machine_id()                         __init__.py:540
+    `createSystem`      InsightsConnection.create_system(new_machine_id=False): id in the POST body   connection.py:533
+    `legacyUnregister`  InsightsConnection.unregister() with legacy_upload: id in the DELETE url      connection.py:769 -/
+inductive Reader
+  | explicit | default | clientFn | clientObj | createSystem | legacyUnregister
+  deriving DecidableEq, Repr
+
+/-- entry points that force a new identifier: generate_machine_id(new=True), create_system(new_machine_id=True) -/
+inductive Regen
+  | explicit | default | createSystem
+  deriving DecidableEq, Repr
+
+/-- `machine_id_exists()`: os.path.isfile, symlink followed -/
+def idIsFile (E : Env) (fs : FS) : Bool := (readsAs E fs).isSome
+
+/-- `os.path.exists(p)`: symlink followed -/
+def existsFollow (E : Env) (fs : FS) (l : Loc) : Bool :=
+  match look E fs l with
+  | .absent => false
+  | .link k => (match fs.ext k with | .absent => false | _ => true)
+  | _ => true
+
+/-- `write_unregistered_file(); write_to_disk(constants.machine_id_file, delete=True)`:
+    connection.py:794-795, support.py:76-77, client.py:252-254 (there with delete_cache_files() in between) -/
+def unregisterAndDrop (E : Env) (fs : FS) : FS × Res :=
+  let r := writeState E .reg .unreg timeStamp fs
+  if r.2 = .done then
+    let d := wtdDelete E r.1 .id
+    (d.1, ofOk d.2)
+  else r
+
+/-- InsightsConnection.unregister(), platform branch (connection.py:793-799); `.2` = the value returned -/
+def connUnregister (E : Env) (fs : FS) : (FS × Res) × Bool :=
+  if idIsFile E fs || existsFollow E fs (.reg false) then (unregisterAndDrop E fs, true)
+  else ((fs, .done), false)
+
+/-- client.handle_unregistration(config, pconn), platform branch (client.py:289-300) -/
+def handleUnregistration (E : Env) (fs : FS) (force : Bool) : FS × Res :=
+  let u := connUnregister E fs
+  if u.1.2 = .done then
+    if u.2 || force then unregisterAndDrop E u.1.1 else u.1
+  else u.1
+
+/-- InsightsConnection.api_registration_check → _fetch_system_by_machine_id (connection.py:705-731, 1005-1022):
+    the identifier is read only if the file exists -/
+def fetch (E : Env) (fs : FS) (rhsm : Option Str) (fresh : Str) : FS × Res :=
+  if idIsFile E fs then genId E fs false rhsm fresh else (fs, .done)
+
+/-- support.registration_check(pconn), platform branch (support.py:60-80); `http` = what the inventory said
+    (some true = found, some false = 404, none = unreachable) -/
+def registrationCheck (E : Env) (fs : FS) (http : Option Bool) (rhsm : Option Str) (fresh : Str) : FS × Res :=
+  let g := fetch E fs rhsm fresh
+  let proceed (fs1 : FS) (status : Option Bool) : FS × Res :=
+    let status' := if status != some true && idIsFile E fs1 && existsFollow E fs1 (.reg false) then some true else status
+    match status' with
+    | some true => writeState E .unreg .reg timeStamp fs1      -- write_registered_file()
+    | some false => unregisterAndDrop E fs1                    -- write_unregistered_file(); delete machine-id
+    | none => (fs1, .done)
+  match g.2 with
+  | .id _ => proceed g.1 http
+  | .done => proceed g.1 (some false)                          -- no identifier file: `return False` before any request
+  | e => (g.1, e)
+
 inductive Op
-  | readId (rhsm : Option Str) (fresh : Str)
-  | newId (rhsm : Option Str) (fresh : Str)
+  | readId (rd : Reader) (rhsm : Option Str) (fresh : Str)
+  | newId (w : Regen) (rhsm : Option Str) (fresh : Str)
+  | fetch (rhsm : Option Str) (fresh : Str)
   | register
   | unregister (date : Option Str)
   | deleteRegistered
   | deleteUnregistered
+  | connUnregister
+  | handleUnregistration (force : Bool)
+  | registrationCheck (http : Option Bool) (rhsm : Option Str) (fresh : Str)
   deriving DecidableEq, Repr
 
 /-- `if date is None: date = get_time()` (65-66) -/
@@ -264,13 +335,18 @@ def dateOr : Option Str → Str
   | some d => d
   | none => timeStamp
 
+/-- every reader / regenerator is the same function of the file system: the code has no other copy of the identifier -/
 def step (E : Env) (fs : FS) : Op → FS × Res
-  | .readId r f => genId E fs false r f
-  | .newId r f => genId E fs true r f
+  | .readId _ r f => genId E fs false r f
+  | .newId _ r f => genId E fs true r f
+  | .fetch r f => fetch E fs r f
   | .register => writeState E .unreg .reg timeStamp fs
   | .unregister date => writeState E .reg .unreg (dateOr date) fs
   | .deleteRegistered => let r := deleteMarkers E .reg fs; (r.1, ofOk r.2)
   | .deleteUnregistered => let r := deleteMarkers E .unreg fs; (r.1, ofOk r.2)
+  | .connUnregister => (connUnregister E fs).1
+  | .handleUnregistration force => handleUnregistration E fs force
+  | .registrationCheck http r f => registrationCheck E fs http r f
 
 /-- state after a history -/
 def exec (E : Env) (fs : FS) : List Op → FS
